@@ -93,7 +93,13 @@ func upperGuard(at *ssa.BasicBlock, x ssa.Value, idx ssa.Value, strict bool) (bo
 		if c, ok := cond.(*ssa.Call); ok {
 			if callee := staticCallee(c); callee != nil && len(callee.Blocks) == 1 {
 				if ret, ok := callee.Blocks[0].Instrs[len(callee.Blocks[0].Instrs)-1].(*ssa.Return); ok && len(ret.Results) == 1 {
-					if bo, ok := ret.Results[0].(*ssa.BinOp); ok {
+					if bo0, ok := ret.Results[0].(*ssa.BinOp); ok {
+						// orientation: bring the length to the left (offset >= len(src) is len(src) <= offset)
+						bo := bo0
+						if _, lenLeft := bo0.X.(*ssa.Call); !lenLeft {
+							mirror := map[token.Token]token.Token{token.LSS: token.GTR, token.GTR: token.LSS, token.LEQ: token.GEQ, token.GEQ: token.LEQ, token.EQL: token.EQL, token.NEQ: token.NEQ}
+							bo = &ssa.BinOp{Op: mirror[bo0.Op], X: bo0.Y, Y: bo0.X}
+						}
 						// translate the callee's receiver fields to the caller's: compare structurally by field indices
 						if lc, ok := bo.X.(*ssa.Call); ok {
 							if bi, ok := lc.Call.Value.(*ssa.Builtin); ok && bi.Name() == "len" {
